@@ -77,6 +77,7 @@ fn dg_phdr(d: &mut Dg, h: &ProgramHeader) {
 fn dg_ehdr<E: EndianParse>(d: &mut Dg, h: &elf::file::FileHeader<E>) {
     d.u((h.class == Class::ELF64) as u64);
     d.u(h.endianness.is_little() as u64);
+    d.u(h.endianness.is_big() as u64);
     for v in [h.version as u64, h.osabi as u64, h.abiversion as u64, h.e_type as u64, h.e_machine as u64, h.e_entry, h.e_phoff, h.e_shoff, h.e_flags as u64, h.e_ehsize as u64, h.e_phentsize as u64, h.e_phnum as u64, h.e_shentsize as u64, h.e_shnum as u64, h.e_shstrndx as u64] {
         d.u(v)
     }
